@@ -6,7 +6,7 @@ from ..seqenum import enumerate_words
 class C08(ModelCheck):
     id = "C08"
     profile = "closers"
-    profiles = ['closers', 'closers', 'mixed']
+    profiles = ['closers', 'closers', 'mixed', 'shared']
     usage_mode = "any"
     nt_rule = staticmethod(lambda ev: ev.get("last_close_with_nameplate") or (ev.get("last_close") and ev.get("close_again")))
     rule = "Histories from profile closers/mixed (one or two sides over several connections, nameplate released or not before the closes, the closer holding other nameplates/mailboxes, re-sent closes on fresh connections with the mailbox present and gone, moods). After a close that leaves an open side the mailbox, messages and the other side's subscription stay; after the last open side's close the client got closed and the mailbox, its messages, side records and its nameplate are gone in the same snapshot while every other nameplate/mailbox/message is unchanged; a re-sent close is answered closed. Non-trivial = a history with a last close while a nameplate still pointed at the mailbox, or a last close plus a re-sent close; distinct by hash of (config, script)."
